@@ -811,8 +811,17 @@ interleaved_to_planar_type)
 {
     default_construct_aux(first2, last2, std::true_type());
 
-    typename It2::difference_type n = last2 - first2;
-    copier_n<It1,It2>()(first1, n, first2);
+    try
+    {
+        typename It2::difference_type n = last2 - first2;
+        copier_n<It1,It2>()(first1, n, first2);
+    }
+    catch (...)
+    {
+        // the destination was constructed above: do not leave it behind in storage the caller considers raw
+        destruct_aux(first2, last2, std::true_type());
+        throw;
+    }
 }
 } // namespace detail
 
